@@ -326,13 +326,17 @@ def tuple_get(string, count=None):
     if not string:
         return None
 
-    string = string.strip()
-    if not (string.startswith("(") and string.endswith(")")):
-        msg = "Tuple value misses brackets: '%s'" % string
-        raise ValueError(msg)
+    if isinstance(string, (list, tuple)):
+        # An odml style tuple that has been parsed already, e.g. a stored value.
+        res = [str(x).strip() for x in string]
+    else:
+        string = string.strip()
+        if not (string.startswith("(") and string.endswith(")")):
+            msg = "Tuple value misses brackets: '%s'" % string
+            raise ValueError(msg)
 
-    string = string[1:-1]
-    res = [x.strip() for x in string.split(";")]
+        string = string[1:-1]
+        res = [x.strip() for x in string.split(";")]
     if count is not None and not len(res) == count:
         msg = "%s-tuple value does not match required item length" % count
         raise ValueError(msg)
